@@ -40,6 +40,9 @@ def rand_cfg(rng):
         return {"comp": "nullopt", "level": "default", "bs": "default", "ri": "default", "pool": -1, "prefix": rng.choice([0, 0, 513])}
     comp = rng.choice(COMPS)
     level = rng.choice(["default", "default", "-5", "0", "1", "5", "9", "99"])
+    if rng.random() < 0.05:         # block sizes that do not fit 31 / 32 bits ("one block"): 2^31, 2^32, 2^32 + 4096, SIZE_MAX
+        return {"comp": comp, "level": level, "bs": rng.choice([1 << 31, 1 << 32, (1 << 32) + 4096, (1 << 64) - 1]),
+                "ri": rng.choice([1, 2, 16]), "pool": -1, "prefix": 0}
     return {"comp": comp, "level": level, "bs": rng.choice([1, 1024, 1024, 2048, 8192]),
             "ri": rng.choice([1, 2, 3, 16]), "pool": -1, "prefix": rng.choice([0, 0, 1, 513, 4096])}
 
